@@ -76,7 +76,7 @@ theorem HvFine.grow {hv : PHdrVals} (h : HvFine b hv) (hs : b.size ≤ b'.size) 
 
 theorem HlSafe.grow {o : Nat} {st : HLσ} (h : HlSafe b o st) (hs : b.size ≤ b'.size) : HlSafe b' o st :=
   ⟨by have := h.hi; omega, h.pnc, PField.inside_mono h.nameF hs, h.nameI, PField.inside_mono h.valF hs, h.valI, h.nn,
-   fun hv hh => (h.hv hv hh).grow hs⟩
+   fun hv hh => (h.hv hv hh).grow hs, h.nameIn, h.valIn⟩
 
 theorem HdrFine.grow {h : Hdr} (hf : HdrFine b h) (hs : b.size ≤ b'.size) : HdrFine b' h :=
   ⟨hf.1, PField.inside_mono hf.2.1 hs, PField.inside_mono hf.2.2 hs⟩
@@ -86,7 +86,7 @@ theorem HlsOut.grow {hl : HdrLst} (h : HlsOut b hl) (hs : b.size ≤ b'.size) : 
 
 theorem HlsSafe.grow {o : Nat} {hl : HdrLst} {hb : Option PHdrVals} (h : HlsSafe b o hl hb) (hs : b.size ≤ b'.size) :
     HlsSafe b' o hl hb :=
-  ⟨h.cur.grow hs, h.clean, fun k h1 h2 => (h.stored k h1 h2).grow hs, fun j hj => (h.hF j hj).grow hs⟩
+  ⟨h.cur.grow hs, h.clean, fun k h1 h2 => (h.stored k h1 h2).grow hs, fun j hj => (h.hF j hj).grow hs, h.inn⟩
 
 theorem FlSafe.grow {o : Nat} {pl : PFLine} (h : FlSafe b o pl) (hs : b.size ≤ b'.size) : FlSafe b' o pl :=
   ⟨by have := h.ho; omega, h.method, h.uri, h.version, h.statusCode, h.reason, h.pnc⟩
